@@ -16,6 +16,8 @@
 //   AT3  <[String]>::join(sep)     elements separated by sep (join_v, defined)            (@rename join vp_join)
 //   AT4  slice.iter().map(f)       driven to its end by the `.collect()` that follows: f is called once on every
 //                                  element, in order; the results in order                  (@rename map vp_map)
+//   AT5  `<Expr as Ranged>::range` the node's own source range: an uninterpreted function ann_expr_range of the node (same
+//        statement as prelude/completion_ctx_spec.rs `expr_range`; copied, not included, under its own name)
 //   (Identifier::to_string, TextRange::start/end, TextSize::to_usize: build/astspec.rs; `str::to_string`,
 //    Option::map / unwrap_or_else, Vec collect: vstd)
 
@@ -40,6 +42,12 @@ pub uninterp spec fn out_v<T: ?Sized>(x: &T) -> Seq<char>;
 #[verifier::allow(undeclared_external_trait)]
 pub assume_specification<'a, I: core::slice::SliceIndex<str>>[ str::get::<I> ](s: &'a str, i: I) -> (r: Option<&'a <I as core::slice::SliceIndex<str>>::Output>)
     ensures (match r { Some(t) => Some(out_v(t)), None => None::<Seq<char>> }) == get_v(s@, i);
+
+// ---- AT5 ---------------------------------------------------------------------------------------------------------------
+/// `expr.range()` (trait Ranged: the node's own `range` field through a generated 27-arm match): a function of the node
+pub uninterp spec fn ann_expr_range(e: rustpython_parser::ast::Expr) -> rustpython_parser::text_size::TextRange;
+pub assume_specification[ <rustpython_parser::ast::Expr as rustpython_parser::ast::Ranged>::range ](e: &rustpython_parser::ast::Expr) -> (r: rustpython_parser::text_size::TextRange)
+    ensures r == ann_expr_range(*e);
 
 // ---- AT2 ---------------------------------------------------------------------------------------------------------------
 /// what `Display` writes for a value
